@@ -231,6 +231,7 @@ def main(tier, only=None):
                     blk = f0 + i; b[blk * im.bs:(blk + 1) * im.bs] = (('FREE%07d|' % blk).encode() * (im.bs // 12 + 1))[:im.bs]
         return bytes(b)
     DEVS['ext4csum+stale'] = garbage_in_free_space(fsweep.base_data('ext4csum'))
+    DEVS['needsrec'] = fsweep.base_data('needsrec')          # journal with committed transactions: e2fsck replays it and restarts, tune2fs/debugfs -w replay it through the library
     if not quick:
         DEVS.update({'metabg': fsweep.base_data('metabg'), 'ext3': fsweep.base_data('ext3'), 'ext4csum+5k': stamp(fsweep.base_data('ext4csum'), 5 * 1024), 'ext2+stale': garbage_in_free_space(fsweep.base_data('ext2'))})
     # filesystem at offset 4096 (built with the tree's mke2fs, populated)
